@@ -573,11 +573,37 @@ class ProbTable:
     def __init__(self, seed):
         self.seed, self.t = seed, {}
 
-    def get(self, order, n, v):
-        k = (order, n, v)
+    MODES = ("any", "sameT", "bc_only", "oneT", "tiny")
+
+    def get(self, order, n, v, mode="any"):
+        """mode: how variant 2 relates to variant 1 of the same size - independent data ("any"), the same durations with other waypoints
+        and boundary states ("sameT"), only one boundary component differs ("bc_only"), only one duration differs ("oneT"), one waypoint
+        coordinate differs in its last bits ("tiny"): what a 'nothing changed' shortcut that compares only part of the inputs gets wrong"""
+        k = (order, n, v) if (v == 1 or mode == "any") else (order, n, v, mode)
         if k not in self.t:
             r = gen.Rng(self.seed * 7919 + order * 1000 + n * 10 + v)
-            if v == 1:
+            if v != 1 and mode != "any":
+                base = self.get(order, n, 1)[0]
+                pr = dict(base)
+                if mode == "sameT":
+                    other = r.problem(order, C10_DIM[order], n, tdom="W", dcls=base["dcls"])
+                    pr["P"], pr["bc"] = other["P"], other["bc"]
+                elif mode == "bc_only":
+                    bc = {kk: list(vv) for kk, vv in base["bc"].items()}
+                    which = r.choice(["sv", "ev"] if order == 3 else ["sv", "sa", "ev", "ea"] if order == 5 else ["sv", "sa", "sj", "ev", "ea", "ej"])
+                    bc[which][r.randint(0, C10_DIM[order] - 1)] += r.choice([0.5, -1.25, 2.0])
+                    pr["bc"] = bc
+                elif mode == "oneT":
+                    T = list(base["T"])
+                    i = r.randint(0, n - 1)
+                    T[i] = T[i] * r.choice([1.25, 0.875, 1.0 + 2.0 ** -20])
+                    pr["T"] = T
+                else:
+                    P = [list(row) for row in base["P"]]
+                    i, c = r.randint(0, n), r.randint(0, C10_DIM[order] - 1)
+                    P[i][c] = P[i][c] * (1.0 + 2.0 ** -40) if P[i][c] != 0.0 else 2.0 ** -40
+                    pr["P"] = P
+            elif v == 1:
                 # variant 1: every size is a PREFIX of one master problem (dropping trailing waypoints keeps the leading
                 # durations bit-identical - the history a cache keyed on "durations unchanged" gets wrong)
                 if (order, "master") not in self.t:
@@ -594,28 +620,36 @@ class ProbTable:
         return self.t[k]
 
 
-def expand_spline_script(tab, order, hist):
-    """abstract history from MCSplineObj -> concrete commands, followed by an observation suffix on every live object"""
+def expand_spline_script(tab, order, hist, mode=None):
+    """abstract history from MCSplineObj -> concrete commands, followed by an observation suffix on every live object and the same
+    observations on a FRESH object built from the same inputs (the memo of the trace specification demands identical bits)"""
+    if mode is None:
+        mode = ProbTable.MODES[(sum(len(str(a)) for a in hist) + len(hist)) % len(ProbTable.MODES)]
     cmds = [{"op": "reset"}]
     cur = {}
     for a in hist:
         op = a["op"]
         if op == "build":
-            pr, gc, gt = tab.get(order, a["n"], a["v"])
+            pr, gc, gt = tab.get(order, a["n"], a["v"], mode)
             cmds.append(gen.build_cmd(a["obj"], pr, a["how"], 6))
-            cur[a["obj"]] = (a["n"], a["v"])
+            cur[a["obj"]] = (a["n"], a["v"], "pts" if a["how"].endswith("pts") else "durs")
         elif op in ("copy", "assign"):
             cmds.append({"op": op, "dst": a["dst"], "src": a["src"]})
             cur[a["dst"]] = cur[a["src"]]
         else:
-            cmds += query_cmds(tab, order, a["obj"], cur[a["obj"]], [op])
+            cmds += query_cmds(tab, order, a["obj"], cur[a["obj"]], [op], mode)
+    kinds = ["state", "energy", "egrad", "epartial", "prop", "eval", "knots"]
     for oid in sorted(cur):
-        cmds += query_cmds(tab, order, oid, cur[oid], ["state", "energy", "egrad", "epartial", "prop", "eval", "knots"])
+        cmds += query_cmds(tab, order, oid, cur[oid], kinds, mode)
+    for j, nv in enumerate(sorted(set(cur.values()))):
+        pr, gc, gt = tab.get(order, nv[0], nv[1], mode)
+        cmds.append(gen.build_cmd(90 + j, pr, "ctor_" + nv[2], 6))       # same time overload: the inputs are then the same strings
+        cmds += query_cmds(tab, order, 90 + j, nv, kinds, mode)
     return cmds
 
 
-def query_cmds(tab, order, oid, nv, kinds):
-    pr, gc, gt = tab.get(order, nv[0], nv[1])
+def query_cmds(tab, order, oid, nv, kinds, mode="any"):
+    pr, gc, gt = tab.get(order, nv[0], nv[1], mode)
     out = []
     for k in kinds:
         if k == "prop":
@@ -680,6 +714,18 @@ def plan_C10(ctx):
         for h in chosen:
             cmds = expand_spline_script(tab, order, h)
             execs.append((len(cmds) * (order + 1), cmds))
+        # an object updated with inputs that differ from its current ones in ONE respect only (every relation mode of the problem table,
+        # both update overloads, with and without queries in between, both directions): 'nothing changed' shortcuts
+        for mode in ProbTable.MODES[1:]:
+            for n in (1, 2, 3):
+                for how2 in ("upd_durs", "upd_pts"):
+                    for (va, vb) in ((1, 2), (2, 1)):
+                        for mid in ((), ("prop", "eval")):
+                            how1 = "ctor_durs" if how2 == "upd_durs" else "ctor_pts"
+                            h = [{"op": "build", "obj": 1, "n": n, "v": va, "how": how1}] + [{"op": q, "obj": 1} for q in mid] + \
+                                [{"op": "build", "obj": 1, "n": n, "v": vb, "how": how2}]
+                            cmds = expand_spline_script(tab, order, h, mode=mode)
+                            execs.append((len(cmds) * (order + 1), cmds))
         if not ctx.quick():      # long random walks (growing and shrinking sizes, interleaved queries and copies): TLC -simulate, depth 12
             from vcheck import tlc_generate
             mo = 5 if order == 7 else order
